@@ -8,11 +8,13 @@ _T = ["Backend.C03U_conservation", "Backend.C03U_queue_coherent", "Backend.C03U_
       "Backend.UQ.uRead_spec", "Backend.UQ.uPrepareRead_spec", "Backend.UQ.TI.enq", "Backend.UQ.TI.prepareWrite"]
 THEOREMS = {
     "C03": _T,
-    "C20": ["Backend.C20U_empty_test_sound_run", "Backend.C20U_empty_test_sound", "Backend.C03U_shrink_keeps", "Backend.UQ.TI.empty_sound"],
+    "C20": ["Backend.C07U_exit_leaves_only_drained", "Backend.C07U_exit_loop_leaves_only_drained", "Backend.US.allEmptyU_sound",
+            "Backend.C20U_empty_test_sound_run", "Backend.C20U_empty_test_sound", "Backend.C03U_shrink_keeps", "Backend.UQ.TI.empty_sound"],
+    "C08": ["Backend.C08U_counter_never_reset", "Backend.C08U_fresh_state", "Backend.US.ctr_closedU"],
     "C09": ["Backend.C09U_blocked_call_granted_after_drain", "Backend.C09U_drain_publishes", "Backend.qPrepareWrite_drained",
             "Backend.C09U_parked_call_resumes_partial", "Backend.C09U_reads_committed", "Backend.C09U_parked_call_resumes_drained",
             "Backend.C09U_fresh_state", "Backend.US.pi_closed", "Backend.US.uRead_complete", "Backend.uPrepareWrite_drained_grants"],
 }
-MODULES = {"C03": ["QuillModel.Props.C03U"], "C20": ["QuillModel.Props.C03U"], "C09": ["QuillModel.Props.C03U", "QuillModel.Props.C09U", "QuillModel.Backend.UProg"]}
+MODULES = {"C08": ["QuillModel.Props.C08U"], "C03": ["QuillModel.Props.C03U"], "C20": ["QuillModel.Props.C03U", "QuillModel.Props.C07U"], "C09": ["QuillModel.Props.C03U", "QuillModel.Props.C09U", "QuillModel.Backend.UProg"]}
 OBLIG = []
 OBLIG_BY_PROP = {}
